@@ -2,6 +2,7 @@ mod c_eeprom;
 mod c_init;
 mod c_pd;
 mod c_pdu;
+mod c_sdo;
 mod c_seq;
 mod c_state;
 mod c_wkc;
@@ -35,6 +36,8 @@ fn lookup(property: &str, check: &str) -> Option<Box<CaseFn>> {
         ("C14", "alias-and-writes") => Some(Box::new(c_eeprom::c14_case)),
         ("C07", "pd-cycle") => Some(Box::new(c_pd::c07_case)),
         ("C08", "pd-mapping") => Some(Box::new(c_pd::c08_case)),
+        ("C15", "sdo-transfers") => Some(Box::new(c_sdo::c15_case)),
+        ("C16", "hostile-mailbox") => Some(Box::new(c_sdo::c16_case)),
         ("C11", "wkc-group-transitions") => Some(Box::new(c_wkc::c11_group_case)),
         ("C11", "wkc-fault-enumeration") => Some(Box::new(c_wkc::c11_case)),
         ("C10", "group-transitions") => Some(Box::new(c_state::c10_case)),
@@ -68,6 +71,7 @@ fn main() {
         }
         id @ ("C12" | "C13" | "C14") => c_eeprom::run(id, args.get(2).map(|s| s.as_str()).unwrap_or("quick"), seed, workers),
         id @ ("C07" | "C08") => c_pd::run(id, args.get(2).map(|s| s.as_str()).unwrap_or("quick"), seed, workers),
+        id @ ("C15" | "C16") => c_sdo::run(id, args.get(2).map(|s| s.as_str()).unwrap_or("quick"), seed, workers),
         "C11" => c_wkc::run_c11(args.get(2).map(|s| s.as_str()).unwrap_or("quick"), seed, workers),
         "C10" => c_state::run_c10(args.get(2).map(|s| s.as_str()).unwrap_or("quick"), seed, workers),
         "C09" => c_init::run_c09(args.get(2).map(|s| s.as_str()).unwrap_or("quick"), seed, workers),
